@@ -1,6 +1,7 @@
 package main
 
 import (
+	"strings"
 	"fmt"
 	"go/constant"
 	"go/token"
@@ -824,7 +825,9 @@ func (w *Worker) unop(instr *ssa.UnOp, x value) value {
 			panic(targetPanic{v: runtimeErr("invalid memory address or nil pointer dereference")})
 		}
 		v := *p
-		if po, ok := v.(poison); ok && !w.lenient {
+		if po, ok := v.(poison); ok && !w.lenient && !strings.Contains(po.why, "global crypto/rand.Reader") {
+			// (crypto/rand.Reader is only ever handed to modelled primitives, which ignore it; any real use of the
+			// poison value is still reported where it happens)
 			unsupported("load of poison value: %s", po.why)
 		}
 		return copyVal(v)
